@@ -113,6 +113,9 @@ def c14 : List String := Id.run do
       out := out ++ [s!"the shipped std build names a std item other than CPU feature detection: {repr r}"]
   if !(crateAttrs.contains "cfg_attr(not(feature=\"std\"),no_std)") then
     out := out ++ ["the crate is not `no_std` when the `std` feature is off"]
+  for r in cargoFeatureGraph do
+    if !(r.1 == "std" || r.1 == "default" || !(featureClosure cargoFeatureGraph [r.1]).contains "std") then
+      out := out ++ [s!"cargo build --no-default-features --features {r.1} resolves to the feature set {(featureClosure cargoFeatureGraph [r.1]).eraseDups}: `std` is switched on although it was not requested, so this configuration has no no_std build"]
   if cargoDependencies != [] then
     out := out ++ [s!"the crate has dependencies: {cargoDependencies}"]
   return out
